@@ -55,6 +55,7 @@ fn small_trees(max_nodes: usize) -> Vec<BNode> {
                 uid: Some(0),
                 refs: vec![],
                 children,
+                extras: if n % 2 == 0 { 1 } else { 0 },
             })
             .collect()
     }
@@ -73,6 +74,7 @@ fn insert_trees() -> Vec<BNode> {
         uid,
         refs,
         children: vec![],
+        extras: 0,
     };
     vec![
         leaf(None, vec![]),
@@ -83,6 +85,7 @@ fn insert_trees() -> Vec<BNode> {
             uid: Some(1),
             refs: vec![(0, RefSel::InTree(40000))],
             children: vec![leaf(Some(1), vec![(1, RefSel::InTree(0))]), leaf(None, vec![(0, RefSel::Live(1, 65535))])],
+            extras: 1,
         },
     ]
 }
@@ -138,7 +141,7 @@ fn all_ops(w: &model::World) -> Vec<Op> {
 pub fn enumerate_histories(len: usize, max_start_nodes: usize) -> Vec<History> {
     let mut out = Vec::new();
     let starts = small_trees(max_start_nodes);
-    let second = BNode { class: 0, name: 0, uid: Some(0), refs: vec![], children: vec![BNode { class: 3, name: 1, uid: None, refs: vec![], children: vec![] }] };
+    let second = BNode { class: 0, name: 0, uid: Some(0), refs: vec![], children: vec![BNode { class: 3, name: 1, uid: None, refs: vec![], children: vec![], extras: 1 }], extras: 0 };
     for s in &starts {
         let doms = vec![s.clone(), second.clone()];
         let mut frontier: Vec<Vec<Op>> = vec![vec![]];
@@ -184,6 +187,7 @@ fn big_tree(shape: u8, n: usize) -> BNode {
         uid: if i % 97 == 3 { Some((i % 4) as u8) } else { None },
         refs: if i % 41 == 7 { vec![((i % 3) as u8, RefSel::InTree((i * 13 % 65536) as u16))] } else { vec![] },
         children,
+        extras: if i % 29 == 5 { (i % 64) as u8 } else { 0 },
     };
     match shape {
         // star
@@ -234,7 +238,7 @@ pub fn large_histories(thorough: bool) -> Vec<History> {
     } else {
         sizes.push(12_001);
     }
-    let second = BNode { class: 0, name: 0, uid: Some(0), refs: vec![], children: vec![BNode { class: 3, name: 1, uid: None, refs: vec![], children: vec![] }] };
+    let second = BNode { class: 0, name: 0, uid: Some(0), refs: vec![], children: vec![BNode { class: 3, name: 1, uid: None, refs: vec![], children: vec![], extras: 1 }], extras: 0 };
     let mut out = Vec::new();
     for n in sizes {
         for shape in 0..4u8 {
